@@ -108,7 +108,7 @@ def diff_penalty(m, order=1):
     return D.T @ D
 
 
-def build_model(rng):
+def build_model(rng, collide=False):
     import jax.numpy as jnp
     import liesel.model as lsl
     import tensorflow_probability.substrates.jax.bijectors as tfb
@@ -143,7 +143,13 @@ def build_model(rng):
     # derived quantities that depend on sampled parameters but feed no distribution (predictions, summaries)
     pred = lsl.Var(lsl.Calc(lambda b, s, b2: jnp.sum(b) * 2.0 + s + jnp.sum(b2 ** 2), beta, sigma2, b2), name="pred")
     ksq = lsl.Calc(lambda k, t: k ** 2 + jnp.log(t), kv, tau2, _name="k_sq_plus_log_tau2")
-    model = lsl.GraphBuilder().add(yv, pred, ksq).add_groups(grp).build_model()
+    extra = []
+    if collide:
+        # an unrelated strong variable whose NAME equals the value-node name of `beta` ("beta_value"): position keys
+        # that address the node `beta_value` then collide with this variable's name
+        other = lsl.Var(jnp.asarray([9.0, 9.0, 9.0], jnp.float32), name="beta_value")
+        extra.append(other)
+    model = lsl.GraphBuilder().add(yv, pred, ksq, *extra).add_groups(grp).build_model()
     return model, grp
 
 
@@ -196,18 +202,25 @@ def case_liesel(case, res):
     import liesel.goose as gs
 
     rng = rng_for(case["seed"], "c09", case["idx"])
-    model, grp = build_model(rng)
+    collide = bool(case.get("collide"))
+    model, grp = build_model(rng, collide)
     cfg = case["cfg"]
     named = make_kernels(rng, model, grp, cfg)
     strong = ["beta", "sigma2_transformed", "tau2", "b2", "k"]
+    if collide:
+        # the beta kernel addresses its block by NODE name; fingerprints are taken by unambiguous node names
+        import liesel.goose as gs_
+
+        named = [(blk, (gs_.RWKernel(["beta_value"], initial_step_size=cfg["step_beta"] * 0.4) if blk == "beta" else k)) for blk, k in named]
     tracked = [nm for nm, ns in model.state.items() if ns.value is not None]
     b = gs.EngineBuilder(seed=case["engine_seed"], num_chains=2)
     b.show_progress = False
     b.set_model(gs.LieselInterface(model))
     b.set_initial_values(model.state)
     wrappers = []
+    fp_keys = ["beta_value", "sigma2_transformed_value", "tau2_value", "b2_value", "k_value"] + (["beta_value_value"] if collide else [])
     for j, (blk, k) in enumerate(named):
-        wk = RecordingWrapper(k, strong)
+        wk = RecordingWrapper(k, fp_keys)
         if case["idx"] % 2:
             wk.identifier = f"user{9 - j}_{blk}"     # user-chosen identifiers, not in alphabetical order
         wrappers.append((blk, wk))
@@ -220,7 +233,7 @@ def case_liesel(case, res):
     ti = r.transition_infos.combine_all().unwrap()
     pos = {k: np.asarray(v) for k, v in r.positions.combine_all().unwrap().items()}
     w = {"order": [blk for blk, _ in named], "kinds": cfg, "schedule": case["spec"]}
-    C, T = pos["beta"].shape[:2]
+    C, T = pos["beta_value"].shape[:2]
     own = {"beta": {"beta"}, "sigma2_transformed": {"sigma2_transformed"}, "tau2": {"tau2"}, "b2": {"b2"}, "k": {"k"}}
     infos = [ti[wk.identifier] for _, wk in wrappers]
     entry = [np.asarray(i.entry) for i in infos]   # [C, T-1, n_keys, 3]
@@ -240,11 +253,17 @@ def case_liesel(case, res):
     for j, (blk, wk) in enumerate(wrappers):
         ch = np.any(entry[j] != exit_[j], axis=3)      # [C, T-1, n_keys]
         res.mon("only_own_keys_change", C * (T - 1))
-        for ki, key in enumerate(strong):
+        for ki, key in enumerate(strong + (["<other variable named beta_value>"] if collide else [])):
             if key not in own[blk] and ch[:, :, ki].any():
                 c_, t_ = np.argwhere(ch[:, :, ki])[0]
                 res.violation("foreign-key-changed", f"kernel for block {blk} changed parameter {key} (chain {c_}, iteration {t_})", w)
                 break
+    if collide:
+        jb = [j for j, (blk, _) in enumerate(wrappers) if blk == "beta"][0]
+        moved_own = np.any(entry[jb][:, :, 0] != exit_[jb][:, :, 0])
+        if not moved_own:
+            res.violation("own-block-never-moves", "the kernel addressing node 'beta_value' never moved that node in the whole run "
+                          "(a variable with the same name exists)", w)
     # derived quantities: recompute every stored iteration from its strong values
     # independent recomputation: direct assignment on a private deep copy of the model and a full update
     # (deliberately NOT through LieselInterface, which is part of what is being judged)
@@ -351,7 +370,7 @@ def gen_cases(tier, seed):
         spec = [[1, 6, 1], [2, 6, 1], [3, 6, 1], [4, 12, 1]] if i % 2 else [[3, 10, 1], [4, 20, 1]]
         heavy = (cfg["beta"] in ("nuts", "hmc")) + (cfg["sigma2"] == "nuts")
         cases.append({"kind": "liesel", "idx": i, "seed": seed, "cfg": cfg, "spec": spec, "engine_seed": int(rng.integers(2 ** 30)),
-                      "cost": 10 + 10 * heavy})
+                      "collide": bool(i % 4 == 3), "cost": 10 + 10 * heavy})
     for i in range(6 if q else 60):
         rng = rng_for(seed, "c09-gend", i)
         cases.append({"kind": "dict", "idx": 10000 + i, "seed": seed, "spec": [[1, 5, 1], [3, 5, 1], [4, 10, 1]],
